@@ -71,7 +71,7 @@ pub fn hostile(rng: &mut Rng, mapped: &[u16], n_events: usize, gaps: &[u32]) -> 
         let code = if rng.chance(4, 5) && !mapped.is_empty() {
             *rng.pick(mapped)
         } else {
-            rng.below(768) as u16
+            rng.below(767) as u16 // 767 (KEY_MAX) is a sentinel that can never be a mapped key
         };
         match rng.usize(12) {
             0..=3 => h.push(Ev::P(code)),
